@@ -37,6 +37,20 @@ type ecase struct {
 	Spec  mspec
 	X, Y  proto.Message
 	Label string
+	// the real comparer is handed dynamicCopy of that side (dyn.go)
+	DynX, DynY bool
+}
+
+// reps: the two sides in the Go representation the real code is given.
+func (c ecase) reps() (x, y proto.Message) {
+	x, y = c.X, c.Y
+	if c.DynX {
+		x = dynamicCopy(x)
+	}
+	if c.DynY {
+		y = dynamicCopy(y)
+	}
+	return x, y
 }
 
 type ecaseJSON struct {
@@ -44,9 +58,13 @@ type ecaseJSON struct {
 	Spec mspec   `json:"spec"`
 	X    msgJSON `json:"x"`
 	Y    msgJSON `json:"y"`
+	DynX bool    `json:"dyn_x,omitempty"`
+	DynY bool    `json:"dyn_y,omitempty"`
 }
 
-func (c ecase) json() ecaseJSON { return ecaseJSON{"cmp", c.Spec, toJSON(c.X), toJSON(c.Y)} }
+func (c ecase) json() ecaseJSON {
+	return ecaseJSON{"cmp", c.Spec, toJSON(c.X), toJSON(c.Y), c.DynX, c.DynY}
+}
 
 func (j ecaseJSON) decode() (ecase, error) {
 	x, err := fromJSON(j.X)
@@ -57,7 +75,7 @@ func (j ecaseJSON) decode() (ecase, error) {
 	if err != nil {
 		return ecase{}, err
 	}
-	return ecase{Spec: j.Spec, X: x, Y: y}, nil
+	return ecase{Spec: j.Spec, X: x, Y: y, DynX: j.DynX, DynY: j.DynY}, nil
 }
 
 func b2s(b bool) string {
@@ -78,7 +96,8 @@ func callCmp(e func(x, y proto.Message) bool, x, y proto.Message) string {
 // runCode: verdicts of the real comparer on (x,y), (y,x), (x,x), (y,y).
 func (c ecase) runCode() [4]string {
 	e := c.Spec.build()
-	return [4]string{callCmp(e, c.X, c.Y), callCmp(e, c.Y, c.X), callCmp(e, c.X, c.X), callCmp(e, c.Y, c.Y)}
+	x, y := c.reps()
+	return [4]string{callCmp(e, x, y), callCmp(e, y, x), callCmp(e, x, x), callCmp(e, y, y)}
 }
 
 func (c ecase) lines() []string {
@@ -299,8 +318,13 @@ func (c ecase) monitor(ms *monitors) string {
 	if c.Spec.Comb != "" {
 		ms.logic.Eval(key, true, nil)
 		all, any := true, false
+		rx, ry := c.reps()
 		for _, e := range c.Spec.E {
-			r := e.build()(c.X, c.Y)
+			var r bool
+			if p, msg := lib.Catch(func() { r = e.build()(rx, ry) }); p {
+				ms.equal.Violate("C16/"+c.specClass()+"/panic", "comparer panicked", in, "a verdict", "panic:"+msg)
+				return fmt.Sprint(out)
+			}
 			all = all && r
 			any = any || r
 		}
@@ -486,6 +510,9 @@ func runEquator(f lib.Flags, res *lib.Result, drv *lib.Driver, ms *monitors) {
 			g.special = g.r.Intn(3) == 0
 			x, y, label := g.pair()
 			c := ecase{Spec: g.mspec(), X: x, Y: y, Label: label}
+			// a third of the sides go to the real code as dynamicpb values (each side on its own: a generated
+			// value is also compared with a dynamic one of the same descriptor)
+			c.DynX, c.DynY = valid(x) && g.r.Intn(3) == 0, valid(y) && g.r.Intn(3) == 0
 			cases = append(cases, c)
 			lines = append(lines, c.lines()...)
 		}
